@@ -85,6 +85,8 @@ def result_points(case, r):
 
 # ----------------------------------------------------------------------------- generation
 POOL_QUICK = 120      # candidates per function from which the quick tier selects its cases (x3 for MANY_PATHS)
+POOL_FACTOR = {"line_to_box": 8, "line_segment_to_box": 8, "triangle_to_triangle": 5, "triangle_to_rectangle": 5,
+               "rectangle_to_rectangle": 5, "rectangle_to_box": 4}
 MANY_PATHS = {"line_to_box", "line_segment_to_box", "line_segment_to_triangle", "line_segment_to_rectangle", "line_segment_to_circle",
               "triangle_to_triangle", "triangle_to_rectangle", "rectangle_to_rectangle", "rectangle_to_box"}
 
@@ -112,17 +114,23 @@ def gen_cases(rng, tier, per_fn=None, pid=PID):
                 cases += [pl.gen_pair(rng, fn) for _ in range(n)]          # weighted random mix
         return cases
     # ---- quick tier: path-guided selection from a stratified pool
-    pools = {fn: stratified(rng, fn, POOL_QUICK * (3 if fn in MANY_PATHS else 1)) for fn in pl.FUNCS}
+    pools = {fn: stratified(rng, fn, POOL_QUICK * (POOL_FACTOR.get(fn, 3) if fn in MANY_PATHS else 1)) for fn in pl.FUNCS}
     flat = [c for fn in pl.FUNCS for c in pools[fn]]
     nw = 8
     chunks = [flat[i::nw] for i in range(nw)]
     res = cm.run_impl_parallel(pid, "c10sig", [dict(cases=[dict(fn=c["fn"], args=pl.case_args(c)) for c in ch]) for ch in chunks],
                                timeout=1800, jit=False, tag="sig")
     lines = [None] * len(flat)
+    susp = [False] * len(flat)
     ok = all(r["status"] == "ok" for r in res)
     if ok:
         for w, r in enumerate(res):
             fidx = r["result"]["files"]
+            for i, o in zip(range(w, len(flat), nw), r["result"].get("outs", [])):
+                try:
+                    susp[i] = pl.float_suspicious(flat[i], o)
+                except Exception:          # noqa: the screen must never stop a run
+                    susp[i] = True
             for i, ls in zip(range(w, len(flat), nw), r["result"]["lines"]):
                 lines[i] = (frozenset({("RAISED", -1)}) if ls == [-1] else
                             frozenset((fidx[x // 10000000], x % 10000000) for x in ls))
@@ -131,6 +139,7 @@ def gen_cases(rng, tier, per_fn=None, pid=PID):
     for fn in pl.FUNCS:
         pool = pools[fn]
         ls = lines[pos:pos + len(pool)]
+        sp = susp[pos:pos + len(pool)]
         pos += len(pool)
         if not ok or any(x is None for x in ls):
             cases += pool[::max(1, len(pool) // n)][:n]
@@ -143,7 +152,12 @@ def gen_cases(rng, tier, per_fn=None, pid=PID):
         # (a) a stratified base: 24 pool cases spread evenly over the pool, i.e. over the streams in proportion to their
         #     weights (classes of inputs that matter although they take no path of their own: nested, coincident, slicing
         #     placements ...);  every pool case that RAISED in the interpreted tracing run;  (b) then path-guided additions
-        base = set(range(0, len(pool), max(1, len(pool) // 24))[:24]) | {i for i, x in enumerate(ls) if ("RAISED", -1) in x}
+        # ... and every candidate whose (interpreted) result fails the cheap float screen primlib.float_suspicious (point off
+        #     its primitive, |p1-p2| != d, p2 - p1 not separating by d): at most 16 per function, spread over the pool
+        sus_idx = [i for i, x in enumerate(sp) if x]
+        sus_idx = sus_idx[::max(1, len(sus_idx) // 16)][:16]
+        base = (set(range(0, len(pool), max(1, len(pool) // 24))[:24]) | {i for i, x in enumerate(ls) if ("RAISED", -1) in x}
+                | set(sus_idx))
         for b in sorted(base):
             left.discard(b)
             sel.append(b)
@@ -162,7 +176,7 @@ def gen_cases(rng, tier, per_fn=None, pid=PID):
             for l in ls[best]:
                 cov[l] = cov.get(l, 0) + 1
         cases += [pool[i] for i in sorted(sel)]
-        stats[fn] = dict(pool=len(pool), selected=len(sel), lines_in_pool=len(freq), lines_selected=len(cov),
+        stats[fn] = dict(pool=len(pool), selected=len(sel), float_screen_suspicious=sum(sp), lines_in_pool=len(freq), lines_selected=len(cov),
                          distinct_paths_in_pool=len(set(ls)), distinct_paths_selected=len({ls[i] for i in sel}))
     gen_cases.last_stats = stats
     return cases
@@ -549,7 +563,11 @@ def run(tier, seed, replay=None):
             lines_seen_in_pools=sum(v["lines_in_pool"] for v in sel.values()),
             lines_covered_by_selection=sum(v["lines_selected"] for v in sel.values()),
             distinct_paths_in_pools=sum(v["distinct_paths_in_pool"] for v in sel.values()),
-            distinct_paths_selected=sum(v["distinct_paths_selected"] for v in sel.values()))
+            distinct_paths_selected=sum(v["distinct_paths_selected"] for v in sel.values()),
+            candidates=sum(v["pool"] for v in sel.values()),
+            float_screen="every candidate's interpreted result is screened in floats (point off primitive, |p1-p2| != d, p2 - p1 "
+                         "not separating by d); up to 16 suspicious candidates per function are always selected",
+            float_screen_suspicious={k: v["float_screen_suspicious"] for k, v in sel.items() if v["float_screen_suspicious"]})
     results, names = run_impl_cases(PID, cases)
     R.cov["evaluations"] = len(cases)
     if names is not None and sorted(names) != sorted(pl.FUNCS):
